@@ -641,6 +641,7 @@ trait BytesLike {
   fn write_var(&mut self, ty: &str, v: &str) -> Option<Option<usize>>;
   fn get_varu(&mut self, ty: &str) -> Option<(usize, String)>;
   fn put_slice_(&mut self, s: &[u8]) -> bool;
+  fn io_write_(&mut self, s: &[u8]) -> Option<usize>;
   fn set_len_(&mut self, n: usize);
   fn align_to_<T>(&mut self) -> Option<*mut u8>;
   fn put_aligned_<T>(&mut self, v: T) -> Option<*mut u8>;
@@ -742,6 +743,7 @@ macro_rules! impl_bytes_like {
         int_arms!(get_varu self ty; u16 u32 u64 u128 i16 i32 i64 i128)
       }
       fn put_slice_(&mut self, s: &[u8]) -> bool { self.put_slice(s).is_ok() }
+      fn io_write_(&mut self, s: &[u8]) -> Option<usize> { std::io::Write::write(self, s).ok() }
       fn set_len_(&mut self, n: usize) { self.set_len(n) }
       fn align_to_<T>(&mut self) -> Option<*mut u8> {
         self.align_to::<T>().ok().map(|p| p.as_ptr().cast())
@@ -1504,7 +1506,7 @@ impl<A: Flavour> Case<A> {
         "r=ok".to_string()
       }
       // ---- buffer operations -----------------------------------------------------------
-      "put" | "get" | "put_var" | "get_var" | "put_varu" | "get_varu" | "wput" | "wput_var" | "put_slice" | "set_len"
+      "put" | "get" | "put_var" | "get_var" | "put_varu" | "get_varu" | "wput" | "wput_var" | "put_slice" | "iowrite" | "set_len"
       | "align_to" | "put_aligned" | "putT" => {
         if t.len() < 2 {
           return None;
@@ -1549,7 +1551,7 @@ impl<A: Flavour> Case<A> {
       "get" => t.len() == 4 && INTS.contains(&t[2]) && ord_ok(t[3]),
       "put_var" | "put_varu" => t.len() == 4 && VARS.contains(&t[2]),
       "get_var" | "get_varu" => t.len() == 3 && VARS.contains(&t[2]),
-      "put_slice" => {
+      "put_slice" | "iowrite" => {
         t.len() == 4 && parse::<usize>(t[2]).is_some_and(|l| l <= MAX_SLICE) && parse::<u8>(t[3]).is_some()
       }
       "set_len" => t.len() == 3 && parse::<usize>(t[2]).is_some(),
@@ -1619,6 +1621,16 @@ impl<A: Flavour> Case<A> {
           false => "r=InsufficientBuffer".to_string(),
         }
       }
+      // `std::io::Write::write` of the handle: the contract of `put_slice` (all of the slice or an error and no change);
+      // a short count is printed as such (the model never prints it)
+      "iowrite" => {
+        let (l, x): (usize, u8) = (parse(t[2])?, parse(t[3])?);
+        match b.io_write_(&vec![x; l]) {
+          Some(n) if n == l => "r=ok".to_string(),
+          Some(n) => format!("r=short n={n}"),
+          None => "r=InsufficientBuffer".to_string(),
+        }
+      }
       "set_len" => {
         // implementation-side oracle `sz`: the bytes `set_len` exposes or hides read as zeroes afterwards (printed only
         // when they do not)
@@ -1681,7 +1693,7 @@ impl<A: Flavour> Case<A> {
         // a panicking buffer operation still reports the length of its handle
         let len = matches!(
           t[0],
-          "put" | "get" | "put_var" | "get_var" | "put_varu" | "get_varu" | "wput" | "wput_var" | "put_slice" | "set_len" | "align_to" | "put_aligned" | "putT"
+          "put" | "get" | "put_var" | "get_var" | "put_varu" | "get_varu" | "wput" | "wput_var" | "put_slice" | "iowrite" | "set_len" | "align_to" | "put_aligned" | "putT"
         )
         .then(|| t.get(1).and_then(|h| parse::<u32>(h)).and_then(|h| self.handles.get(&h)).and_then(|s| s.len()))
         .flatten();
@@ -2057,11 +2069,11 @@ fn mappings_of(path: &Path) -> usize {
 }
 
 /// First tokens of the lines that need an arena (answered `r=closed` while the case is closed).
-const ARENA_OPS: [&str; 46] = [
+const ARENA_OPS: [&str; 47] = [
   "alloc_bytes", "alloc_bytes_owned", "alloc_aligned", "alloc_aligned_owned", "alloc_t", "alloc_t_owned",
   "alloc_d", "alloc_d_owned", "alloc_z", "alloc_z_owned", "fill", "drop", "detach", "hold", "dealloc", "discard_freelist", "set_minseg",
   "inc_discarded", "rewind", "clear", "truncate", "clone", "drop_arena", "rd", "rd_var", "slices",
-  "checksum", "info", "wres", "rres", "put", "get", "put_var", "get_var", "put_varu", "get_varu", "wput", "wput_var", "put_slice", "set_len", "align_to",
+  "checksum", "info", "wres", "rres", "put", "get", "put_var", "get_var", "put_varu", "get_varu", "wput", "wput_var", "put_slice", "iowrite", "set_len", "align_to",
   "put_aligned", "putT", "flush", "remove_on_drop", "close",
 ];
 
